@@ -315,6 +315,11 @@ def run_expandverif(desc, ctx):
         hours_in = rng.choice([[0], [0, 12], [6]])
         times = sorted(day0 * 86400 + dd * 86400 + h * 3600 for dd in range(ndays) for h in hours_in)
         leads = sorted(rng.sample([0, 3, 6, 12, 18, 24, 30, 36, 48], rng.randint(2, 5)))
+        subhourly = rng.random() < 0.5
+        if subhourly:
+            # observation times a quarter of an hour apart: a requested time must match exactly, not "nearly"
+            leads = sorted(set(leads + rng.sample([0.25, 0.5, 0.75, 1, 1.5, 2.75, 3.25], rng.randint(2, 5))))
+            ctx.count("expandverif_subhourly_runs")
         locs = rng.sample(gen.LOC_POOL, rng.randint(1, 3))
         inp = gen.make_input(rng, "in", "nc", times, leads, locs, miss=0.0, vrange=(0, 20))
         # observations are a function of valid time and location
@@ -334,7 +339,9 @@ def run_expandverif(desc, ctx):
         opath = os.path.join(d, "out.nc")
         inits = sorted(rng.sample([0, 6, 12, 18], rng.randint(1, 3)))
         olt = sorted(rng.sample([0, 3, 6, 9, 12, 18, 24, 36, 42, 48, 60], rng.randint(1, 5)))
-        argv = [ipath, "-o", opath, "-i", ",".join(str(i) for i in inits), "-lt", ",".join(str(i) for i in olt)]
+        if subhourly:
+            olt = sorted(set(olt + rng.sample([0.25, 0.5, 1, 1.25, 1.5, 3.25, 3.5, 6.25], rng.randint(1, 4))))
+        argv = [ipath, "-o", opath, "-i", ",".join(str(i) for i in inits), "-lt", ",".join(gen.fnum(i) for i in olt)]
         r = run_script("expandverif.py", argv)
         ctx.count("expandverif_runs")
         case = {"inp": inp, "argv": argv[1:]}
